@@ -798,7 +798,9 @@ class TestSuite(tsdb.Database):
             fields = self.schema[name]
             if table._in_transaction:
                 data: tsdb.Records = []
-                if table._volatile_index >= table._persistent_count:
+                path = tsdb.get_path(self.path, name)
+                if (table._volatile_index >= table._persistent_count
+                        and path.suffix.lower() != '.gz'):
                     append = True
                     data = table[table._persistent_count:]
                 else:
